@@ -48,6 +48,7 @@ type Env struct {
 	side      []string
 	bound     []string
 	noFnNames bool
+	resIdx    int // which result of a several-result pure call is meant (see res1)
 	pkg       *types.Package
 	results   []SVal
 	noUnfold  bool
@@ -1349,6 +1350,28 @@ func (e *Env) evalCall(n *ECall) SVal {
 			}
 		}
 		return mathBool(fmt.Sprintf("(and (>= (base %s) %s) (< (base %s) %s) (= (base %s) %s) (= (kind %s) 0))", t, e.old.alloc, t, e.cur.alloc, t, t, t))
+	case "res1":
+		// res1(f(args)): the second result of a pure function with several results
+		saved := e.resIdx
+		e.resIdx = 1
+		v := e.eval(n.Args[0])
+		e.resIdx = saved
+		return v
+	case "strcat":
+		// strcat(a, b): Go string concatenation a + b (the symbol the executor uses for it)
+		a, b := e.eval(n.Args[0]), e.eval(n.Args[1])
+		vc.d.declFun("strcat", "(declare-fun strcat (Int Int) Int)")
+		t := fmt.Sprintf("(strcat %s %s)", a.t, b.t)
+		e.addSide(fmt.Sprintf("(and (>= %s 0) (= (strlen %s) (+ (strlen %s) (strlen %s))))", t, t, a.t, b.t), t)
+		return SVal{t: t, typ: types.Typ[types.String], sort: "Int"}
+	case "substr":
+		// substr(s, lo, hi): Go string slicing s[lo:hi]
+		sv := e.eval(n.Args[0])
+		lo, hi := e.evalInt(n.Args[1]), e.evalInt(n.Args[2])
+		vc.d.declFun("substr", "(declare-fun substr (Int Int Int) Int)")
+		t := fmt.Sprintf("(substr %s %s %s)", sv.t, lo, hi)
+		e.addSide(fmt.Sprintf("(>= %s 0)", t), t)
+		return SVal{t: t, typ: types.Typ[types.String], sort: "Int"}
 	case "min", "max":
 		a, b := e.evalInt(n.Args[0]), e.evalInt(n.Args[1])
 		op := "<="
@@ -1544,6 +1567,30 @@ func (e *Env) evalMethodCall(sel *ESelect, args []Expr) SVal {
 			v := e.eval(args[0])
 			return SVal{t: v.t, typ: tn.Type(), sort: v.sort}
 		}
+		if fo, ok := obj.(*types.Func); ok {
+			// a package-level function with a pure contract: the same uninterpreted symbol that models its calls in code
+			key := fo.Pkg().Path() + "." + fo.Name()
+			spec := vc.w.funcSpecs[key]
+			sig := fo.Type().(*types.Signature)
+			if spec != nil && spec.Pure && sig.Results().Len() == 1 && sig.Params().Len() == len(args) && len(args) >= 1 {
+				var vals []SVal
+				for _, a := range args {
+					vals = append(vals, e.eval(a))
+				}
+				var ps []*types.Var
+				for j := 1; j < sig.Params().Len(); j++ {
+					ps = append(ps, sig.Params().At(j))
+				}
+				psig := types.NewSignatureType(nil, nil, nil, types.NewTuple(ps...), sig.Results(), false)
+				rv := vals[0]
+				if rv.sort == "" {
+					rv.sort = vc.d.sortOf(sig.Params().At(0).Type())
+				}
+				t := vc.pureApp(key, psig, rv, vals[1:])
+				rt := sig.Results().At(0).Type()
+				return SVal{t: t, typ: rt, sort: vc.d.sortOf(rt)}
+			}
+		}
 		e.fail("call of %s.%s in contract", x.pkgName.Name(), sel.Name)
 	}
 	if x.typ == nil {
@@ -1565,6 +1612,18 @@ func (e *Env) evalMethodCall(sel *ESelect, args []Expr) SVal {
 			var argVals []SVal
 			for _, a := range args {
 				argVals = append(argVals, e.eval(a))
+			}
+			if fsig.Results().Len() > 1 {
+				// several results: result number e.resIdx (default 0; res1(call) selects the second)
+				i := e.resIdx
+				if i >= fsig.Results().Len() {
+					e.fail("result index out of range")
+				}
+				one := types.NewSignatureType(nil, nil, nil, fsig.Params(), types.NewTuple(fsig.Results().At(i)), false)
+				t := vc.pureApp(fmt.Sprintf("%s#%d", key, i), one, fv, argVals)
+				rt := fsig.Results().At(i).Type()
+				e.rangeSide(t, rt)
+				return SVal{t: t, typ: rt, sort: vc.d.sortOf(rt), st: x.st}
 			}
 			t := vc.pureApp(key, fsig, fv, argVals)
 			rt := fsig.Results().At(0).Type()
